@@ -96,13 +96,18 @@ def oracle(program, aux):
         run.close()
         return run, failures
     fs = ihyb.validate_hybrid(image, h, **kw)
-    if mac and len(ef_entries) > 1:
-        # Interpretation: which of the two 0xef images is "the EFI one" and which "the Mac one" is not
-        # stated; either assignment that delimits the two El Torito images exactly is accepted.
-        kw2 = dict(kw, efi_image=ef_entries[1], mac_image=ef_entries[0])
-        fs2 = ihyb.validate_hybrid(image, h, **kw2)
-        if len(fs2) < len(fs):
-            fs = fs2
+    if efi and len(ef_entries) > 1:
+        # Interpretation: which of several 0xef images is "the EFI one" (and which "the Mac one") is not
+        # stated (the library takes them in layout order, not catalogue order); any assignment of distinct
+        # 0xef El Torito images that the partitions delimit exactly is accepted.
+        import itertools
+        for a_, b_ in itertools.permutations(range(len(ef_entries)), 2):
+            kw2 = dict(kw, efi_image=ef_entries[a_])
+            if mac:
+                kw2['mac_image'] = ef_entries[b_]
+            fs2 = ihyb.validate_hybrid(image, h, **kw2)
+            if len(fs2) < len(fs):
+                fs = fs2
     gpt = 'gpt' if efi else 'mbr-only'
     for clause, msg in fs:
         failures.append(('C12/%s/%s' % (clause, gpt), clause, msg[:400]))
